@@ -13,6 +13,9 @@ impl Rng {
         z ^ (z >> 31)
     }
     pub fn below(&mut self, n: u64) -> u64 {
+        if n == 0 {
+            return 0;
+        }
         self.next() % n
     }
     pub fn byte(&mut self) -> u8 {
